@@ -61,6 +61,7 @@ def parseOp (w : List String) : Option Op :=
   | ["adDrop", a] => some (.adDrop a)
   | ["closeUnder"] => some .closeUnder
   | ["collectUnder", x] => some (.collectUnder x)
+  | ["unwind"] => some .unwind
   | _ => none
 
 /-- canonical id text: `T<k>#<n>` for ids drawn by logical thread k, `0`, else `x<hex>` -/
